@@ -3,7 +3,9 @@ import SJ.Drv.Base
     through `deserialize_option` / `deserialize_newtype_struct` / `deserialize_enum`, `Number`, `Map<String, Value>`, `IgnoredAny`,
     `Cow<str>`, tuple structs …). There is no Lean model of these targets: the handler echoes the observation and evaluates the
     property's own statement on it — `from_value(v)`, `T::deserialize(&v)` and `from_str(to_string(v))` give the same result
-    (the same `Debug` rendering of the value, or all three fail); never a panic. -/
+    (the same `Debug` rendering of the value, or all three fail); never a panic. Under `arbitrary_precision` / `raw_value` the pool
+    also holds Values whose objects are keyed by the private `Number` / `RawValue` tokens (built by `Map::insert`): the owned route
+    hands keys out by `visit_string`, the borrowed and the text route by `visit_str`, and all three must classify them alike. -/
 namespace SJ.Drv.C16x
 open SJ SJ.Drv
 
